@@ -15,37 +15,40 @@ KERNEL_SAMPLE = 12
 
 _LAYER = ("forall (hstate : Type) (compute : hstate -> request -> bool -> fat * hstate * list bytes) ")
 _ANSWER_ARGS = ("hstate compute cache_on ims_on parse_ims sanitize_ok prime negotiate vary_tuple vary_header "
-                "checked error_page pkg alt sanitize encode hversion")
+                "checked error_page vary_rules pkg alt sanitize encode hversion")
 _RUN = ("run_streams hstate compute true ims_on parse_ims sanitize_ok prime negotiate vary_tuple vary_header "
         "((c, hs), open_streams reqs) now dt sched")
+_SEND = "forall (checked : bool) (error_page : N -> resp) (vn : list bytes) (pkg : N -> headers -> headers)"
+_WIT = "send_pipe false (fun _ => r) [] (fun _ h => h)"
 THEOREMS = [
     ("send_parity",
-     "forall (checked : bool) (error_page : N -> resp) (pkg : N -> headers -> headers), pkg_oblivious pkg -> "
+     _SEND + ", pkg_oblivious pkg -> "
      "forall (secure1 : bool) (alt : option bytes) (m : N) (sd : outcome (option (N * N))) (r : resp), "
-     "onorm (send checked error_page pkg H1 secure1 alt m sd r) = onorm (send checked error_page pkg H2 true alt m sd r)"),
+     "onorm (send checked error_page vn pkg H1 secure1 alt m sd r) = onorm (send checked error_page vn pkg H2 true alt m sd r)"),
     ("protocol_parity",
      _LAYER + "(cache_on ims_on : bool) (parse_ims : bytes -> option Z) (sanitize_ok : request -> bool) (prime : request -> request) "
      "(negotiate : request -> fat -> option (N * bytes)) (vary_tuple : request -> tuple) "
      "(vary_header : request -> fat -> list (bytes * bytes)) (checked : bool) (error_page : N -> resp) "
+     "(vary_rules : request -> list bytes) "
      "(pkg : N -> headers -> headers) (alt : option bytes) (sanitize : request -> outcome (option (N * N))) "
      "(encode : request -> N -> headers -> bytes -> headers * bytes) (hversion : N), pkg_oblivious pkg -> "
      "forall (secure1 : bool) (st : state hstate) (now : N) (r0 : request), "
      "onorm (answer " + _ANSWER_ARGS + " H1 secure1 st now r0) = onorm (answer " + _ANSWER_ARGS + " H2 true st now r0)"),
     ("head_is_get_without_body",
-     "forall (checked : bool) (error_page : N -> resp) (pkg : N -> headers -> headers) (p : proto) (secure : bool) "
+     _SEND + " (p : proto) (secure : bool) "
      "(alt : option bytes) (sd : outcome (option (N * N))) (r : resp), "
-     "send checked error_page pkg p secure alt M_HEAD sd r = odrop (send checked error_page pkg p secure alt M_GET sd r)"),
+     "send checked error_page vn pkg p secure alt M_HEAD sd r = odrop (send checked error_page vn pkg p secure alt M_GET sd r)"),
     ("head_parity",
-     "forall (checked : bool) (error_page : N -> resp) (pkg : N -> headers -> headers), pkg_oblivious pkg -> "
+     _SEND + ", pkg_oblivious pkg -> "
      "forall (secure1 : bool) (alt : option bytes) (sd : outcome (option (N * N))) (r : resp), "
-     "onorm (send checked error_page pkg H1 secure1 alt M_HEAD sd r) = odrop (onorm (send checked error_page pkg H2 true alt M_GET sd r)) /\\ "
-     "onorm (send checked error_page pkg H2 true alt M_HEAD sd r) = odrop (onorm (send checked error_page pkg H2 true alt M_GET sd r))"),
+     "onorm (send checked error_page vn pkg H1 secure1 alt M_HEAD sd r) = odrop (onorm (send checked error_page vn pkg H2 true alt M_GET sd r)) /\\ "
+     "onorm (send checked error_page vn pkg H2 true alt M_HEAD sd r) = odrop (onorm (send checked error_page vn pkg H2 true alt M_GET sd r))"),
     ("pkg_menu_is_oblivious",
      "forall ops : list pkg_op, Forall (fun o => hop (pkg_op_name o) = false) ops -> pkg_oblivious (pkg_menu ops)"),
     ("h2_never_refuses",
-     "forall (checked : bool) (error_page : N -> resp) (pkg : N -> headers -> headers) (p : proto) (secure : bool) "
+     _SEND + " (p : proto) (secure : bool) "
      "(alt : option bytes) (m : N) (sd : outcome (option (N * N))) (r : resp), "
-     "send checked error_page pkg p secure alt m sd r <> Ok WRefused"),
+     "send checked error_page vn pkg p secure alt m sd r <> Ok WRefused"),
     ("stream_independence",
      _LAYER + "(ims_on : bool) (parse_ims : bytes -> option Z) (sanitize_ok : request -> bool) (prime : request -> request) "
      "(negotiate : request -> fat -> option (N * bytes)) (vary_tuple : request -> tuple) "
@@ -55,15 +58,16 @@ THEOREMS = [
      "rq_path r = rq_path r' -> (qm (cf r true) = true -> path_query r = path_query r') -> cf r true = cf r' true) -> "
      "(forall r r', rq_path r = rq_path r' -> qm (cf r true) = qm (cf r' true)) -> "
      "(forall r, f_spref (cf r false) = SP_NONE) -> "
-     "forall (reqs : list (N * request)) (checked : bool) (error_page : N -> resp) (pkg : N -> headers -> headers) "
+     "forall (reqs : list (N * request)) (checked : bool) (error_page : N -> resp) (vary_rules : request -> list bytes) "
+     "(pkg : N -> headers -> headers) "
      "(alt : option bytes) (sanitize : request -> outcome (option (N * N))) "
      "(encode : request -> N -> headers -> bytes -> headers * bytes) (hversion : N) "
      "(c : cache) (hs : hstate) (now dt : N) (sched : list N) (hs' : hstate) (now' : N), "
      "Inv vary_tuple cf c -> Forall (fun e => no_ims ims_on prime (snd e)) reqs -> "
      "forall (s : N) (r0 : request) (rp : reply), In (s, r0, rp) (" + _RUN + ") -> "
-     "In (s, r0) reqs /\\ stream_wire checked error_page pkg alt sanitize encode hversion (s, r0, rp) = "
+     "In (s, r0) reqs /\\ stream_wire checked error_page vary_rules pkg alt sanitize encode hversion (s, r0, rp) = "
      "(s, answer hstate compute true ims_on parse_ims sanitize_ok prime negotiate vary_tuple vary_header "
-     "checked error_page pkg alt sanitize encode hversion H2 true ([], hs') now' r0)"),
+     "checked error_page vary_rules pkg alt sanitize encode hversion H2 true ([], hs') now' r0)"),
     ("streams_answered_exactly_once",
      _LAYER + "(ims_on : bool) (parse_ims : bytes -> option Z) (sanitize_ok : request -> bool) (prime : request -> request) "
      "(negotiate : request -> fat -> option (N * bytes)) (vary_tuple : request -> tuple) "
@@ -73,13 +77,14 @@ THEOREMS = [
      "NoDup (map (fun o => fst (fst o)) (" + _RUN + ")) /\\ "
      "forall (s : N) (r0 : request), In (s, r0) reqs -> exists rp, In (s, r0, rp) (" + _RUN + ")"),
     ("send_never_panics",
-     "forall (checked : bool) (error_page : N -> resp) (pkg : N -> headers -> headers) (p : proto) (secure : bool) "
+     _SEND + " (p : proto) (secure : bool) "
      "(alt : option bytes) (m : N) (path_ok : bool) (hdr : option bytes) (r : resp), "
-     "N.of_nat (length (rs_body r)) <= u64_max -> send checked error_page pkg p secure alt m (sd_of path_ok hdr) r <> Panic"),
+     "N.of_nat (length (rs_body r)) <= u64_max -> send checked error_page vn pkg p secure alt m (sd_of path_ok hdr) r <> Panic"),
     ("history_parity",
      _LAYER + "(cache_on ims_on : bool) (parse_ims : bytes -> option Z) (sanitize_ok : request -> bool) (prime : request -> request) "
      "(negotiate : request -> fat -> option (N * bytes)) (vary_tuple : request -> tuple) "
      "(vary_header : request -> fat -> list (bytes * bytes)) (checked : bool) (error_page : N -> resp) "
+     "(vary_rules : request -> list bytes) "
      "(pkg : N -> headers -> headers) (alt : option bytes) (sanitize : request -> outcome (option (N * N))) "
      "(encode : request -> N -> headers -> bytes -> headers * bytes) (hversion : N) (wants : state hstate -> request -> option N), "
      "pkg_oblivious pkg -> forall (secure1 : bool) (st : state hstate) (now dt : N) (bs : list breq), "
@@ -90,12 +95,24 @@ THEOREMS = [
      "map onorm (answers " + _ANSWER_ARGS + " H1 secure1 st now dt bs) = map onorm (answers " + _ANSWER_ARGS + " H2 true st now dt bs)"),
     ("pair_history_answered",
      "forall (checked : bool) (ops : list pkg_op) (alt : option bytes) (e416 : resp), "
-     "Forall (fun o => hop (pkg_op_name o) = false) ops -> forall (secure1 : bool) (exs : list exch), "
+     "Forall (fun o => hop (pkg_op_name o) = false) ops -> forall (secure1 : bool) (exs tail : list exch), "
      "Forall (fun e => (pr_no_request_body (ex_method e) = true -> ex_blen e = 0) /\\ N.of_nat (length (rs_body (ex_l4 e))) <= u64_max /\\ "
-     "fut_framed (ex_l4 e) (ex_fut e)) exs -> "
-     "forallb is_resp (pair_hist checked ops alt e416 H1 true secure1 exs) = true /\\ "
-     "forallb is_resp (pair_hist checked ops alt e416 H2 true true exs) = true /\\ "
-     "map (option_map onorm) (pair_hist checked ops alt e416 H1 true secure1 exs) = "
+     "fut_framed (head_only (ex_l4 e)) (ex_fut e) /\\ "
+     "(ex_fut e <> None -> (ex_method e =? M_HEAD) && (rs_status (ex_l4 e) =? 101) = false)) (exs ++ tail) -> "
+     "Forall (fun e => negb (ex_limited e) && close_delimited (ex_l4 e) (ex_fut e) = false) exs -> (length tail <= 1)%nat -> "
+     "forallb is_resp (pair_hist checked ops alt e416 H1 true secure1 (exs ++ tail)) = true /\\ "
+     "forallb is_resp (pair_hist checked ops alt e416 H2 true true (exs ++ tail)) = true /\\ "
+     "map (option_map onorm) (pair_hist checked ops alt e416 H1 true secure1 (exs ++ tail)) = "
+     "map (option_map onorm) (pair_hist checked ops alt e416 H2 true true (exs ++ tail))"),
+    ("close_delimited_not_last_refuted",
+     "exists checked ops alt e416 exs, Forall ex_ok exs /\\ "
+     "map is_resp (pair_hist checked ops alt e416 H1 true true exs) = [true; false] /\\ "
+     "map is_resp (pair_hist checked ops alt e416 H2 true true exs) = [true; true] /\\ "
+     "map (send_ex checked ops alt e416 H1 true) exs = "
+     "[Ok (WClosed (mkResp V11 200 [(B \"content-type\", B \"text/plain\"); (B \"connection\", B \"close\")] (B \"first second\"))); "
+     "Ok (WResp (mkResp V11 200 [(B \"content-type\", B \"text/plain\"); (B \"content-length\", B \"0\"); "
+     "(B \"connection\", B \"keep-alive\")] []))] /\\ "
+     "map (option_map onorm) (map (fun e => Some (send_ex checked ops alt e416 H1 true e)) exs) = "
      "map (option_map onorm) (pair_hist checked ops alt e416 H2 true true exs)"),
     ("unread_request_body_v0_refuted",
      "exists checked ops alt e416 exs, Forall (fun e => pr_no_request_body (ex_method e) = true -> ex_blen e = 0) exs /\\ "
@@ -108,36 +125,39 @@ THEOREMS = [
     ("pkg_menu_keeps_content_length",
      "forall ops : list pkg_op, Forall (fun o => hop (pkg_op_name o) = false) ops -> pkg_keeps_length (pkg_menu ops)"),
     ("send_is_pipe_send",
-     "forall (checked : bool) (error_page : N -> resp) (pkg : N -> headers -> headers) (head_future : bool) (p : proto) (secure : bool) "
+     _SEND + " (head_future : bool) (p : proto) (secure : bool) "
      "(alt : option bytes) (m : N) (sd : outcome (option (N * N))) (r : resp), pkg_keeps_length pkg -> "
-     "send_pipe checked error_page pkg head_future p secure alt m sd r None = send checked error_page pkg p secure alt m sd r"),
+     "send_pipe checked error_page vn pkg head_future p secure alt m sd r None = send checked error_page vn pkg p secure alt m sd r"),
     ("streamed_answer",
-     "forall (checked : bool) (error_page : N -> resp) (pkg : N -> headers -> headers) (p : proto) (secure : bool) (alt : option bytes) "
+     _SEND + " (p : proto) (secure : bool) (alt : option bytes) "
      "(m : N) (sd : outcome (option (N * N))) (r : resp) (cs : list bytes) (ol : option N), "
-     "pkg_keeps_length pkg -> fut_framed r (Some (cs, ol)) -> "
-     "exists (v : N) (h : headers), send_pipe checked error_page pkg false p secure alt m sd r (Some (cs, ol)) "
-     "= Ok (WResp (mkResp v (rs_status r) h (if m =? M_HEAD then [] else rs_body r ++ concat cs))) "
+     "pkg_keeps_length pkg -> fut_framed (head_only r) (Some (cs, ol)) -> "
+     "exists (v : N) (h : headers), send_pipe checked error_page vn pkg false p secure alt m sd r (Some (cs, ol)) "
+     "= (if (m =? M_HEAD) && (rs_status r =? 101) && negb (N.of_nat (length (concat cs)) =? 0) then Ok WBroken else "
+     "Ok ((if match p with H1 => close_delimited r (Some (cs, ol)) | H2 => false end then WClosed else WResp) "
+     "(mkResp v (rs_status r) h (if m =? M_HEAD then [] else rs_body (head_only r) ++ concat cs)))) "
      "/\\ v = ensure_version p (rs_version r) "
      "/\\ strip h = strip (pkg v (match ol with Some n => ensure_length p n (rs_headers (add_alt_svc secure alt r)) "
      "| None => rs_headers (add_alt_svc secure alt r) end))"),
     ("stream_parity",
-     "forall (checked : bool) (error_page : N -> resp) (pkg : N -> headers -> headers) (secure1 : bool) (alt : option bytes) (m : N) "
+     _SEND + " (secure1 : bool) (alt : option bytes) (m : N) "
      "(sd : outcome (option (N * N))) (r : resp) (f : option (list bytes * option N)), "
-     "pkg_oblivious pkg -> pkg_keeps_length pkg -> fut_framed r f -> "
-     "onorm (send_pipe checked error_page pkg false H1 secure1 alt m sd r f) = onorm (send_pipe checked error_page pkg false H2 true alt m sd r f)"),
+     "pkg_oblivious pkg -> pkg_keeps_length pkg -> fut_framed (head_only r) f -> "
+     "onorm (send_pipe checked error_page vn pkg false H1 secure1 alt m sd r f) = "
+     "onorm (send_pipe checked error_page vn pkg false H2 true alt m sd r f)"),
     ("head_stream_v0_refuted",
      "exists (r : resp) (cs : list bytes) (n : N), fut_framed r (Some (cs, Some n)) /\\ "
-     "send_pipe false (fun _ => r) (fun _ h => h) true H1 true None M_HEAD (Ok None) r (Some (cs, Some n)) = Ok WBroken /\\ "
-     "send_pipe false (fun _ => r) (fun _ h => h) true H2 true None M_HEAD (Ok None) r (Some (cs, Some n)) = Ok WBroken /\\ "
-     "(exists w1 w2, send_pipe false (fun _ => r) (fun _ h => h) false H1 true None M_HEAD (Ok None) r (Some (cs, Some n)) = Ok (WResp w1) /\\ "
-     "send_pipe false (fun _ => r) (fun _ h => h) false H2 true None M_HEAD (Ok None) r (Some (cs, Some n)) = Ok (WResp w2) /\\ "
+     + _WIT + " true H1 true None M_HEAD (Ok None) r (Some (cs, Some n)) = Ok WBroken /\\ "
+     + _WIT + " true H2 true None M_HEAD (Ok None) r (Some (cs, Some n)) = Ok WBroken /\\ "
+     "(exists w1 w2, " + _WIT + " false H1 true None M_HEAD (Ok None) r (Some (cs, Some n)) = Ok (WResp w1) /\\ "
+     + _WIT + " false H2 true None M_HEAD (Ok None) r (Some (cs, Some n)) = Ok (WResp w2) /\\ "
      "rs_body w1 = [] /\\ rs_body w2 = [])"),
     ("head_end_of_stream_refuted",
      "exists (v st : N) (h : headers) (cs : list bytes), concat cs <> [] /\\ "
-     "receive H1 M_GET (pipe_send H1 true v st (ensure_length H1 (N.of_nat (length (concat cs))) h) None cs) "
-     "= WResp (mkResp v st (h1_connection (ensure_length H1 (N.of_nat (length (concat cs))) h)) (concat cs)) /\\ "
-     "receive H2 M_GET (pipe_send H2 true v st h None cs) = WResp (mkResp v st (h2_strip h) []) /\\ "
-     "receive H2 M_GET (pipe_send H2 false v st h None cs) = WResp (mkResp v st (h2_strip h) (concat cs))"),
+     "receive H1 M_GET false (pipe_send H1 true v st (ensure_length H1 (N.of_nat (length (concat cs))) h) None cs) "
+     "= WResp (mkResp v st (h1_connection st (ensure_length H1 (N.of_nat (length (concat cs))) h)) (concat cs)) /\\ "
+     "receive H2 M_GET false (pipe_send H2 true v st h None cs) = WResp (mkResp v st (h2_strip h) []) /\\ "
+     "receive H2 M_GET false (pipe_send H2 false v st h None cs) = WResp (mkResp v st (h2_strip h) (concat cs))"),
     ("limiter_answer_parity",
      "forall (m : N) (r : resp), onorm (send_direct H1 m r) = onorm (send_direct H2 m r) /\\ "
      "forall p : proto, exists h : headers, send_direct p m r = "
@@ -147,11 +167,14 @@ THEOREMS = [
      "forall h : headers, h2_refuses (h2_strip h) = false /\\ strip (h2_strip h) = strip h"),
     ("read_to_bytes_parity",
      "forall (body early conn : bytes) (frames : list bytes) (max_len : N), early ++ conn = body -> concat frames = body -> "
-     "fst (h1_read_to_bytes (mkH1B early conn (N.of_nat (length body))) max_len) = firstn (N.to_nat max_len) body /\\ "
+     "fst (h1_read_to_bytes (mkH1B early conn (N.of_nat (length body)) 0) max_len) = firstn (N.to_nat max_len) body /\\ "
      "fst (h2_read_to_bytes frames max_len) = firstn (N.to_nat max_len) body"),
+    ("read_to_bytes_resumes",
+     "forall (early conn : bytes) (cl off max_len : N), cl - off = N.of_nat (length (skipn (N.to_nat off) early ++ conn)) -> "
+     "fst (h1_read_to_bytes (mkH1B early conn cl off) max_len) = firstn (N.to_nat max_len) (skipn (N.to_nat off) early ++ conn)"),
     ("second_read_refuted",
      "exists (body early conn : bytes) (frames : list bytes) (l1 l2 : N), early ++ conn = body /\\ concat frames = body /\\ "
-     "h1_reads (mkH1B early conn (N.of_nat (length body))) [l1; l2] <> h2_reads frames [l1; l2]"),
+     "h1_reads (mkH1B early conn (N.of_nat (length body)) 0) [l1; l2] <> h2_reads frames [l1; l2]"),
     ("stream_body_framed",
      "forall (file : bytes) (a c : N), "
      "match stream_plan true file (Some (a, c)) with Some (b, n) => n = N.of_nat (length b) | None => True end /\\ "
@@ -159,6 +182,25 @@ THEOREMS = [
     ("stream_body_v0_refuted",
      "exists (file : bytes) (a c : N), a < c /\\ "
      "match stream_plan false file (Some (a, c)) with Some (b, n) => n <> N.of_nat (length b) | None => False end"),
+    ("stream_body_as_in_memory",
+     "forall (checked : bool) (file : bytes) (a c : N), a < c -> "
+     "match apply_range checked (Some (a, c)) 200 file with "
+     "| Ok g => stream_plan true file (Some (a, c)) = Some (r_body g, N.of_nat (length (r_body g))) /\\ "
+     "stream_head true file (Some (a, c)) = Some (r_status g, r_content_range g) "
+     "| Err _ => stream_plan true file (Some (a, c)) = None /\\ stream_head true file (Some (a, c)) = None "
+     "| Panic => False end"),
+    ("range_not_satisfiable_page",
+     "forall (checked : bool) (error_page : N -> resp) (vn : list bytes) (a c : N) (r : resp), "
+     "(rs_status r =? 304) = false -> N.of_nat (length (rs_body r)) <= a -> "
+     "apply_sd checked error_page vn (Ok (Some (a, c))) r = Ok (vary_from_settings vn (error_page 416)) /\\ "
+     "(rs_body (error_page 416) <> [] -> "
+     "assoc H_VARY (rs_headers (vary_from_settings vn (error_page 416))) = Some (vary_value vn) /\\ "
+     "rs_body (vary_from_settings vn (error_page 416)) = rs_body (error_page 416))"),
+    ("bodiless_status_answer",
+     _SEND + " (p : proto) (secure : bool) (alt : option bytes) (m : N) (path_ok : bool) (r w : resp), "
+     "ends_with_head (rs_status r) = true -> "
+     "send checked error_page vn pkg p secure alt m (sd_of path_ok None) r = Ok (WResp w) -> "
+     "rs_body w = [] /\\ rs_status w = rs_status r"),
 ]
 
 RULE = ("Real kvarn::handle_connection on loopback TCP pairs, TLS by a rustls ServerConfig from HostCollection::make_config (ALPN from "
@@ -167,18 +209,21 @@ RULE = ("Real kvarn::handle_connection on loopback TCP pairs, TLS by a rustls Se
         "http/1.1, or plain TCP) to host A and over one HTTP/2 connection (h2 crate client over tokio-rustls, ALPN h2) to an identical "
         "fresh host B; the ALPN result is asserted. Hosts: response cache on/off (every directed history runs on both) x handler pages "
         "(compressible text with ServerCachePreference Full / None, QueryMatters page echoing path?query, method echo, a page whose "
-        "handler sets its own content-length, empty body, 404/500 handler pages) + pages whose handlers leave CONNECTION-SPECIFIC "
+        "handler sets its own content-length, empty body, 404/500 handler pages, 204 pages on which the handler left a body - one also a "
+        "transfer-encoding -, a page with two vary rules) + pages whose handlers leave CONNECTION-SPECIFIC "
         "headers: every single one of keep-alive, proxy-connection, transfer-encoding, upgrade, te (gzip / trailers) WITHOUT a connection "
         "header, all at once, with connection: close / keep-alive / upgrade, connection nominating a custom header, and three pages per "
         "random host with seeded random subsets + STREAMED responses (a ResponsePipeFuture writing known chunks incl. an empty one: "
         "with_future_and_len, with_future + the handler's own content-length, a Response body followed by a future, 81 kB = more than an "
-        "HTTP/2 window, a slow future, an empty stream, an error status; extensions::stream_body() on files of 0 B / 180 B / 100 kB) + "
+        "HTTP/2 window, a slow future, an empty stream, an error status, and - as the LAST request of a history - with_future WITHOUT any "
+        "length: HTTP/2 ends the stream, HTTP/1 answers connection: close and has to end the connection within 2.5 s of its last byte, "
+        "the client reads the body up to that end; extensions::stream_body() on files of 0 B / 180 B / 100 kB) + "
         "files (text, binary, index.html) + missing paths + unsafe paths (/./x) + echo handlers that read the request body completely "
         "(/echo, read_to_bytes(1 MiB)) or only its first 3 / 100 / 20000 / 33000 bytes - and echo UNCUT what read_to_bytes returned; "
         "Package menus (or_insert / insert / remove / append, 0-3 extensions in priority order); two hosts per run with the request "
         "LIMITER on (the first k requests pass, the rest - GET, HEAD, POST with a body, and the framing sentinel - are answered 429 by "
         "handle_connection); two hosts per run with 64 KiB and 1 MiB compressible pages (identity / gzip / br, cold and cached, ranged, HEAD; "
-        "the h2 client keeps 65535-byte windows). Requests: GET/HEAD/POST/OPTIONS/PUT/DELETE/PATCH x Accept-Encoding {none, gzip, br, identity, "
+        "the h2 client keeps 65535-byte windows). Requests: GET/HEAD/POST/OPTIONS/PUT/DELETE/PATCH/PURGE (an extension method) x Accept-Encoding {none, gzip, br, identity, "
         "gzip;q=0, *;q=0 identity;q=0 (406)} x Range around the length of the ENCODED representation and of the streamed files (a>b, "
         "a=len, beyond the end, open forms) x If-Modified-Since (future / past / garbage; cold and warm cache) x Origin x query strings x "
         "REQUEST BODIES of 1 B - 150 kB (around the limits of the partial readers, around the 16384-byte DATA frame size and around the "
@@ -189,9 +234,12 @@ RULE = ("Real kvarn::handle_connection on loopback TCP pairs, TLS by a rustls Se
         "such requests; (every request answered on HTTP/1.1?, on HTTP/2?) against the model's connection loop and the specification "
         "(yes, yes); a 'no' counts only if three runs agree. Oracles: (a) parity itself, independent of the model: status, all headers "
         "except {connection, keep-alive, proxy-connection, transfer-encoding, upgrade, te, content-length, alt-svc} as sorted multisets "
-        "(last-modified value masked) and body bytes of the two protocols are equal, a HEAD answer has no body, content-length = body "
-        "length; (b) both equal the Coq specification proto.pair_spec (range_spec of C09 on the layer-4 response - not on streamed ones -, "
-        "package menu on end-to-end headers, body ++ streamed bytes unless HEAD, the limiter's page as it is); (c) the complete wire "
+        "(last-modified value masked) and body bytes of the two protocols are equal, a HEAD answer and a 1xx/204/304 answer have no body, "
+        "content-length = body length (none only when the body ended with the connection), never content-length next to "
+        "transfer-encoding on HTTP/1.1, only the last answer of a history may end the HTTP/1.1 connection; (b) both equal the Coq "
+        "specification proto.pair_spec (no body for 1xx/204/304, range_spec of C09 on the layer-4 response - not on streamed ones -, "
+        "the 416 page with vary: accept-encoding, range + the names of the path's vary rules, package menu on end-to-end headers, "
+        "body ++ streamed bytes unless HEAD, the limiter's page as it is); (c) the complete wire "
         "answers (version, every header incl. content-length / connection / alt-svc) equal the extracted pipe-level model send_pipe H1 / "
         "H2. The layer-4 response of every request (kvarn::handle_cache's CacheReply), WHAT ITS FUTURE WRITES (driven in process through "
         "a plain pipe) with the overridden length, the host's 416 page and the limiter's 429 page are observed in process on a third "
@@ -211,8 +259,10 @@ RULE = ("Real kvarn::handle_connection on loopback TCP pairs, TLS by a rustls Se
         "read_to_bytes(l) on a body of 1 B - 150 kB sent over HTTP/1.1 (a seeded part of it in the same write as the head) and over "
         "HTTP/2 in DATA frames of seeded lengths (1 .. 16384, one send_data each): what each call returned on each protocol against "
         "the transcribed loops (h1_read_to_bytes / h2_read_loop) and the specification (the first min(l, length) bytes on both). "
-        "(4) proto.sbody: extensions::stream_body() in process on files and Ranges (inside, across, at and beyond the end): bytes written "
-        "and length announced against stream_plan. A failure of an exchange that is a time-out or a connection that cannot be opened "
+        "(4) proto.sbody: extensions::stream_body() in process on files and Ranges (inside, across, at and beyond the end): bytes written, "
+        "length announced, status and content-range against stream_plan / stream_head, and against an oracle written in Python (the "
+        "requested part of the file, length = bytes written, 206 + content-range: bytes first-last/length for a Range, 200 without; "
+        "416 exactly when the Range starts at or after the end). A failure of an exchange that is a time-out or a connection that cannot be opened "
         "is never an outcome (the case is run again, then counted as not executed); any other failure is an outcome only when it repeats "
         "identically on three runs with fresh hosts. distinct_nontrivial = distinct (input, sequence of (status, cache/encoding class)) pairs")
 ASSUMPTIONS = [
@@ -226,10 +276,20 @@ ASSUMPTIONS = [
     "answer - transcribed from the harness's raw HTTP/1.1 client and observed behaviour of the h2 0.4 client, not from a specification "
     "of all clients",
     "streamed responses: the length a handler announces (with_future_and_len, or its own content-length with with_future) is the "
-    "number of bytes Response::body and the future write (fut_framed) - proved for extensions::stream_body() as repaired "
-    "(stream_body_framed), a precondition on other handlers; a future that gives up at the first failed write; WebSocket futures "
-    "(no length at all: not a response body) and Post extensions are outside; no range is applied to a streamed response (kvarn's "
-    "is_stream) - stream_body slices the file itself",
+    "number of bytes Response::body and the future write, or no length is announced at all and no transfer-encoding either "
+    "(fut_framed) - proved for extensions::stream_body() as repaired (stream_body_framed), a precondition on other handlers; a "
+    "handler that frames its stream itself (transfer-encoding: chunked on a with_future response) is outside; a future that gives up "
+    "at the first failed write; WebSocket futures (a 101 head: the future is the protocol switch, not a response body - the "
+    "exception of repair d63bba7 is transcribed, a HEAD request answered 101 is outside the history theorems) and Post extensions "
+    "are outside; no range is applied to a streamed response (kvarn's is_stream) - stream_body slices the file itself "
+    "(stream_body_as_in_memory: as apply_to_response does for a body in memory)",
+    "an answer that ends the HTTP/1 connection (a streamed body of unknown length, repair 7334433) is the LAST of a history on one "
+    "connection (pair_history_answered; close_delimited_not_last_refuted shows what follows it is not answered on that connection "
+    "while the HTTP/2 connection goes on - the client has to open another connection: a difference of connections, not of answers); "
+    "the client's view of such an answer (body = everything up to the end of the connection, which the server brings about itself) is "
+    "part of receive",
+    "the names of the vary rules of a request's path (the 416 page advertises them, repair 21f0154) are the host's configuration: an "
+    "input of model and specification, taken from the generator's own host description",
     "stream_independence: the handler contract of C03 (response a function of method class, path, vary tuple and - for "
     "QueryMatters - the query; uniform query-matters-ness per path; error responses uncacheable), requests without "
     "If-Modified-Since (a conditional request is answered 304 or 200 depending on whether another stream has filled the cache "
@@ -267,13 +327,18 @@ TRUSTED = [
     "modelled (Model/Protocols.v): src/lib.rs handle_connection (alt-svc append, per-request task for HTTP/2, the HTTP/1 request loop "
     "with the fate of a request body: Http1Body::new's early bytes, read_to_bytes(l) taking min(declared, l), Http1Body::drain of "
     "fix dfe4d54 - and the loop before that fix as the variant drain = false; the limiter's 429 / the 409 answer: send_direct), "
-    "SendKind::send (range application incl. the 416 replacement - skipped for streamed responses -, the overridden length, "
-    "ensure_length, ensure_version, resolve_package, then the OPERATIONS ON THE PIPE in order: send_response(head, false), the body "
-    "unless HEAD, the future's writes - not for HEAD: fix d63bba7, head_future = true is the code before -, close), src/application.rs "
-    "ResponsePipe::{ensure_length, ensure_version, send_response} and ResponseBodyPipe::{send_with_maybe_close, close} HTTP/1 and "
-    "HTTP/2 arms (connection: keep-alive rule, remove_connection_specific_headers, END_STREAM, send_data failing on an ended stream), "
-    "Body::read_to_bytes HTTP/1 (Http1Body) and HTTP/2 (the DATA-frame loop) arms; utils::get_body_length_request; "
-    "extensions::stream_body's range arithmetic (stream_plan; fix d675f8a, clamp = false is the code before); "
+    "SendKind::send as merged on /repo main (the body of a 1xx/204/304 dropped: 89e2956; range application - not to a 304: 9ae9b1a - "
+    "incl. the 416 replacement with vary::apply_header_from_settings: 21f0154 - skipped for streamed responses -, the overridden "
+    "length, ensure_length, ensure_version, resolve_package, then the OPERATIONS ON THE PIPE in order: send_response(head, false), "
+    "the body unless HEAD, the future's writes - not for HEAD unless the head is a 101: fix d63bba7, head_future = true is the code "
+    "before -, close), handle_connection's close_delimited (7334433: the HTTP/1 connection is not reused after a streamed response "
+    "of unknown length), src/application.rs ResponsePipe::{ensure_length (HTTP/1: content-length set, transfer-encoding removed: "
+    "3c296af), ensure_version, send_response (HTTP/1: connection: close when nothing frames the body, else the keep-alive rule)} and "
+    "ResponseBodyPipe::{send_with_maybe_close, close} HTTP/1 and HTTP/2 arms (remove_connection_specific_headers, END_STREAM, "
+    "send_data failing on an ended stream), Body::read_to_bytes HTTP/1 (Http1Body with its offset, as repaired for C07: 9c56fae, "
+    "2820a60, eedb756) and HTTP/2 (the DATA-frame loop) arms; utils::get_body_length_request; vary::get_header / apply_header for the "
+    "416 page; extensions::stream_body's range arithmetic, status and content-range (stream_plan / stream_head; fix d675f8a, "
+    "clamp = false is the code before); "
     "h2 0.4 proto/streams/send.rs check_headers (the only h2 logic transcribed)",
     "NOT modelled, exercised only: rustls (handshake, records, ALPN selection), h2 (HPACK, flow control incl. the WINDOW_UPDATEs "
     "Body::read_to_bytes releases, the windows a 1 MiB / streamed 81 kB answer needs, and the RST_STREAM(NO_ERROR) after an answer "
@@ -291,7 +356,7 @@ TRUSTED = [
     "the limit: that yields the specification 'the first l bytes'); the classification of failures into harness trouble / outcome "
     "(is_trouble, three agreeing runs)",
 ]
-LEVEL_TEXT = ("partial. Machine-checked Coq theorems (25, statements pinned) over an executable model of the protocol-dependent path above "
+LEVEL_TEXT = ("partial. Machine-checked Coq theorems (30, statements pinned) over an executable model of the protocol-dependent path above "
               "the shared layer 4 of C03: protocol_parity / send_parity (for every host configuration, cache state, request, layer-4 "
               "response, TLS or plain HTTP/1 connection and oblivious Package chain the HTTP/1.1 and HTTP/2 answers are equal after "
               "dropping the version and exactly the headers connection, keep-alive, proxy-connection, transfer-encoding, upgrade, te, "
@@ -303,7 +368,13 @@ LEVEL_TEXT = ("partial. Machine-checked Coq theorems (25, statements pinned) ove
               "streamed_answer and stream_parity (a response with a streaming future, every chunk list, method and protocol: the "
               "client receives one well-framed response whose body is Response::body followed by what the future wrote - nothing "
               "for HEAD - and the two protocols agree up to the same filter, whenever the announced length is the number of bytes "
-              "written; stream_body_framed: extensions::stream_body as repaired meets that for every file and Range), "
+              "written OR NO LENGTH IS ANNOUNCED: then the HTTP/1 body ends with the connection, which the model closes, the HTTP/2 "
+              "body with the stream; stream_body_framed and stream_body_as_in_memory: extensions::stream_body as repaired on /repo "
+              "main meets that for every file and Range and answers a Range exactly as apply_to_response does for a body in "
+              "memory - 416 / 206, content-range, bytes), the repairs made for other properties as they show on both protocols "
+              "(range_not_satisfiable_page: the 416 page carries the vary header of the path's rules; bodiless_status_answer: no "
+              "body after 1xx/204/304; ensure_length's removal of transfer-encoding and the connection: close rule are part of "
+              "send / send_pipe and hence of every parity theorem), "
               "limiter_answer_parity (the 429 / 409 answers handle_connection sends itself); stream_independence (for every set of "
               "concurrent streams and EVERY schedule of the tasks' lookup and completion blocks over the shared response cache, every "
               "stream receives byte for byte the HTTP/2 answer of its own request alone, under C03's handler contract - cancelled "
@@ -314,9 +385,12 @@ LEVEL_TEXT = ("partial. Machine-checked Coq theorems (25, statements pinned) ove
               "application in the state its predecessors left, and the two answer sequences are equal up to the same filter; "
               "hypothesis: no answer panics, discharged by send_never_panics), read_to_bytes_parity (for every body, every cut "
               "into DATA frames, every amount arriving with the HTTP/1 head and every limit the first read_to_bytes(l) returns the "
-              "first l bytes on both protocols), pair_history_answered (the executable history model of the correspondence - "
-              "ordinary, streamed and limiter-answered exchanges - equals its specification on every input of the domain); and "
-              "six witnesses: head_end_of_stream_refuted (why the head must not carry END_STREAM when Response::body is empty), "
+              "first l bytes on both protocols; read_to_bytes_resumes: with the repaired Http1Body a reader that took part of the "
+              "body through AsyncRead gets the bytes that follow), pair_history_answered (the executable history model of the "
+              "correspondence - ordinary, streamed, unknown-length and limiter-answered exchanges - equals its specification on "
+              "every input of the domain in which at most the last answer ends the HTTP/1 connection); and "
+              "seven witnesses: close_delimited_not_last_refuted (after a streamed answer of unknown length the HTTP/1 connection "
+              "answers nothing more, the HTTP/2 one does: the client opens another connection; each answer is the same), head_end_of_stream_refuted (why the head must not carry END_STREAM when Response::body is empty), "
               "unread_request_body_v0_refuted (the loop before fix dfe4d54), head_stream_v0_refuted (before fix "
               "d63bba7 a HEAD for a streamed response got the streamed bytes: broken framing on both protocols), "
               "stream_body_v0_refuted (before fix d675f8a stream_body announced more bytes than it sent for a Range beyond the "
@@ -329,7 +403,9 @@ LEVEL_TEXT = ("partial. Machine-checked Coq theorems (25, statements pinned) ove
               "by that run: everything inside the h2 and rustls crates - HPACK, flow control, frame splitting and scheduling, stream "
               "state machine, RST_STREAM handling, TLS and ALPN - and the tokio scheduler; the concurrency theorem is about "
               "sequentially consistent interleavings of two atomic blocks per task. Two kvarn defects found by this round were "
-              "repaired (d63bba7, d675f8a) and are part of the claim, as is the former known class h1-unread-request-body (dfe4d54). "
+              "repaired (d63bba7, d675f8a) and are part of the claim, as is the former known class h1-unread-request-body (dfe4d54); "
+              "the model describes /repo main with the repairs of all properties merged (7334433, 89e2956, 3c296af, 21f0154, "
+              "9ae9b1a, the Http1Body repairs of C07, the request-parser repairs aca6293 / 2dbf4ed on the input side). "
               "Two known classes, both outside the property's quantifier: h1-undeclared-request-body (kvarn's HTTP/1 reader ignores "
               "the content-length of GET / HEAD / OPTIONS by design, so body bytes of a GET that arrive after its head break the "
               "HTTP/1.1 connection and not the HTTP/2 one) and h2-body-read-again (a handler calling read_to_bytes a second time "
@@ -406,8 +482,19 @@ STREAMS = [
     ST(b"/st5", b"", CHUNKS, _tot(b"", CHUNKS), [(b"content-type", b"text/plain"), (b"keep-alive", b"timeout=5")], delay=4),
     ST(b"/st0", b"", [], 0, [(b"x-h", b"st0")]),
     ST(b"/st404", b"", [b"streamed not found page"], 23, [(b"content-type", b"text/plain")], status=404),
+    # with_future and NO content-length: a body of unknown length.  HTTP/2 ends the stream; HTTP/1 (repair 7334433) says
+    # connection: close and ends the connection - the LAST request of a history only (see closing_request)
+    ST(b"/st6", b"head of the body, ", CHUNKS, None, [(b"content-type", b"text/plain"), (b"x-h", b"st6")]),
 ]
 STREAM_PATHS = [t[0] for t in STREAMS]
+CLOSING = (b"/st6",)
+# vary rules of the host (name, transformation id of the harness, default): the 416 page that replaces a response
+# advertises them (repair 21f0154)
+VARY_RULES = {b"/m": [(b"x-custom", 2, b"d"), (b"accept-language", 3, b"k")]}
+
+
+def vary_names(target):
+    return [n for n, _, _ in VARY_RULES.get(target.split(b"?")[0], [])]
 SFILE = bytes((i * 7 + 3) % 256 for i in range(100000))
 STEXT = b"hello stream body\n" * 10
 SFILES = [("public/sf/a.bin", SFILE), ("public/sf/t.txt", STEXT), ("public/sf/e.txt", b"")]
@@ -468,7 +555,10 @@ def host_cfg(cache, pkg, with_files=True, slow=(), ctlen=True, hops=HOPS_DIRECTE
           H(b"/empty", b"", headers=[(b"x-h", b"e")], spref=2),
           H(b"/short", b"tiny", headers=[(b"content-type", b"text/plain")], spref=2, compress=True),
           H(b"/nf", b"custom not found page " * 4, status=404, headers=[(b"content-type", b"text/plain")], spref=2, compress=True),
-          H(b"/ise", b"boom", status=500, headers=[(b"content-type", b"text/plain")], spref=0)]
+          H(b"/ise", b"boom", status=500, headers=[(b"content-type", b"text/plain")], spref=0),
+          # a 204 on which the handler left a body (and, /nc2, a transfer-encoding): no body after the head (repair 89e2956)
+          H(b"/nc", b"left over body of a 204", status=204, headers=[(b"x-h", b"nc")], spref=0),
+          H(b"/nc2", b"another left over body", status=204, headers=[(b"x-h", b"nc2"), (b"transfer-encoding", b"identity")], spref=2)]
     if ctlen:
         # a handler that states its own content-length (the length before compression / range)
         hs.append(H(b"/cl", TEXT[:200], headers=[(b"content-type", b"text/plain"), (b"content-length", b"200")], spref=2, compress=True))
@@ -486,7 +576,8 @@ def host_cfg(cache, pkg, with_files=True, slow=(), ctlen=True, hops=HOPS_DIRECTE
     kvs = [xl(xb("cache"), xbool(cache)), xl(xb("handlers"), xlist(hs)),
            xl(xb("pkg"), xlist([xl(xz(p), xn(k), xb(n), xb(v)) for p, k, n, v in pkg])),
            xl(xb("echo"), xlist([xb(b"/echo")])),
-           xl(xb("echon"), xlist([xl(xb(p), xn(n)) for p, n in sorted(ECHON.items())]))]
+           xl(xb("echon"), xlist([xl(xb(p), xn(n)) for p, n in sorted(ECHON.items())])),
+           xl(xb("vary"), xlist([xl(xb(pa), xlist([xl(xb(n), xn(t), xb(d)) for n, t, d in rules])) for pa, rules in sorted(VARY_RULES.items())]))]
     if streams:
         kvs.append(xl(xb("stream"), xlist([xl(xb(pa), xb(bo), xlist([xb(c) for c in ch]), xlist([xn(ln)] if ln is not None else []),
                                               xlist([xl(xb(a), xb(b)) for a, b in hd]), xn(st), xn(dl))
@@ -570,7 +661,7 @@ def exchanges(reqs, pr, limit=None):
         # run when sanitize_request refuses the request (416 / 400: layer 4 answers the error page)
         want = READS.get(t.split(b"?")[0]) if l4[1][1] == ("N", 200) and sd == 0 and not limited else None
         exs.append(xl(xb(m), xopt(None if rg is None else xb(rg)), xbool(sd != 1), l4, xn(len(b)), xopt(None if want is None else xn(want)),
-                      xl(xbool(limited), xopt(fut))))
+                      xl(xbool(limited), xopt(fut), xlist([xb(n) for n in vary_names(t)]))))
     e416 = EMPTY_RESP if pr is None else xl(*pr[0][1][:4])
     return e416, xlist(exs)
 
@@ -579,7 +670,7 @@ def exchanges(reqs, pr, limit=None):
 # requests
 # ----------------------------------------------------------------------------------------------
 AES = [None, b"gzip", b"br", b"identity", b"gzip, br;q=0.5", b"gzip;q=0", b"*;q=0, identity;q=0", b"zstd"]
-PATHS = [b"/hs0", b"/hs1", b"/hs2", b"/st1", b"/st2", b"/st3", b"/st4", b"/st5", b"/st0", b"/st404", b"/sf/a.bin", b"/sf/t.txt", b"/sf/e.txt",
+PATHS = [b"/nc", b"/nc2", b"/m", b"/hs0", b"/hs1", b"/hs2", b"/st1", b"/st2", b"/st3", b"/st4", b"/st5", b"/st0", b"/st404", b"/sf/a.bin", b"/sf/t.txt", b"/sf/e.txt",
          b"/sf/missing.txt", b"/ka", b"/up", b"/te", b"/p", b"/p", b"/n", b"/q", b"/q?x=1", b"/q?x=2", b"/m", b"/empty", b"/short", b"/nf", b"/ise", b"/cl", b"/f.txt", b"/f.txt",
          b"/b.bin", b"/index.html", b"/e.txt", b"/missing", b"/missing.html", b"/./x", b"/p?a=b", b"/dir/../f.txt", b"/f%2Etxt", b"/"]
 
@@ -592,7 +683,8 @@ def range_values(rng):
 
 
 # methods whose content-length kvarn's HTTP/1 reader honours (utils::get_body_length_request)
-BODY_METHODS = (b"POST", b"PUT", b"DELETE", b"PATCH")
+# (PURGE: an extension method - any token is a method on both protocols since repair 2dbf4ed of the HTTP/1 request parser)
+BODY_METHODS = (b"POST", b"PUT", b"DELETE", b"PATCH", b"PURGE")
 BODY_SIZES = [1, 2, 5, 64, 99, 100, 101, 700, 5000, 5000, 16384, 16385, 19999, 20000, 20001, 32768, 33001, 40000, 40000, 65535, 65536, 70000,
               150000]
 
@@ -624,7 +716,7 @@ def rand_body(rng, n):
 
 def rand_request(rng, focus=None):
     t = rng.choice(focus) if focus and rng.random() < 0.7 else rng.choice(PATHS)
-    m = rng.choice([b"GET", b"GET", b"GET", b"GET", b"HEAD", b"HEAD", b"POST", b"OPTIONS", b"PUT", b"POST", b"PUT", b"DELETE", b"PATCH"])
+    m = rng.choice([b"GET", b"GET", b"GET", b"GET", b"HEAD", b"HEAD", b"POST", b"OPTIONS", b"PUT", b"POST", b"PUT", b"DELETE", b"PATCH", b"PURGE"])
     hs = []
     if rng.random() < 0.55:
         ae = rng.choice(AES)
@@ -649,6 +741,28 @@ def rand_request(rng, focus=None):
         hs.append((b"content-length", b"%d" % len(body)))
         hs += late(rng, t)
     return R(m, t, hs, body)
+
+
+def closing_request(rng):
+    """a request whose HTTP/1 answer ends the connection (a streamed body of unknown length): last of its history"""
+    t = rng.choice(CLOSING)
+    m = rng.choice([b"GET", b"GET", b"GET", b"HEAD", b"POST", b"PUT"])
+    hs = []
+    if rng.random() < 0.4:
+        hs.append((b"accept-encoding", rng.choice([b"gzip", b"br", b"identity", b"gzip;q=0"])))
+    if rng.random() < 0.3:
+        hs.append((b"range", range_values(rng)))
+    body = b""
+    if m in BODY_METHODS and rng.random() < 0.7:
+        body = rand_body(rng, rng.choice([1, 700, 5000, 20000, 70000]))
+        hs.append((b"content-length", b"%d" % len(body)))
+        if rng.random() < 0.3:
+            hs.append((LATE, b"%d" % rng.choice([1, 5, 20])))
+    return R(m, t, hs, body)
+
+
+def maybe_closing(rng, h, p=0.3):
+    return h + [closing_request(rng)] if rng.random() < p else h
 
 
 def history(rng):
@@ -680,7 +794,8 @@ DIRECTED_HISTORIES = [
     # error pages, unsafe paths, methods
     [R(b"GET", b"/missing"), R(b"HEAD", b"/missing"), R(b"GET", b"/./x"), R(b"HEAD", b"/./x"), R(b"POST", b"/f.txt"), R(b"OPTIONS", b"/f.txt"),
      R(b"PUT", b"/p"), R(b"GET", b"/nf", [(b"accept-encoding", b"gzip")]), R(b"GET", b"/ise"), R(b"GET", b"/p", [(b"accept-encoding", b"*;q=0, identity;q=0")]),
-     R(b"GET", b"/missing", [(b"range", b"bytes=0-9")])],
+     R(b"GET", b"/missing", [(b"range", b"bytes=0-9")]), R(b"PURGE", b"/p"), R(b"PURGE", b"/echo", [(b"content-length", b"5")], b"purge"),
+     R(b"PURGE", b"/f.txt", [(b"content-length", b"700")], b"x" * 700), R(b"GET", b"/m")],
     # request bodies
     [R(b"POST", b"/echo", [(b"content-length", b"5")], b"hello"), R(b"POST", b"/echo", [(b"content-length", b"0")]),
      R(b"POST", b"/echo", [(b"content-length", b"3000")], b"z" * 3000), R(b"GET", b"/echo"), R(b"PUT", b"/echo", [(b"content-length", b"2")], b"ab"),
@@ -736,6 +851,20 @@ DIRECTED_HISTORIES = [
                                                     R(b"GET", b"/hs3", [(b"range", b"bytes=3-8")]), R(b"GET", b"/p")],
     # empty bodies
     [R(b"GET", b"/empty"), R(b"HEAD", b"/empty"), R(b"GET", b"/e.txt"), R(b"GET", b"/empty", [(b"range", b"bytes=0-0")]), R(b"GET", b"/short", [(b"accept-encoding", b"gzip")])],
+    # the repairs made for other properties, seen through both protocols: a 204 with a left-over body (89e2956; with a
+    # transfer-encoding: 3c296af), GET / HEAD / ranged (the emptied body makes every Range unsatisfiable), the 416 page of a
+    # path with vary rules and of one without (21f0154), If-Modified-Since + Range on a cached page (304, not 416: 9ae9b1a)
+    [R(b"GET", b"/nc"), R(b"HEAD", b"/nc"), R(b"GET", b"/nc2"), R(b"GET", b"/nc2", [(b"accept-encoding", b"gzip")]), R(b"GET", b"/nc", [(b"range", b"bytes=0-3")]),
+     R(b"POST", b"/nc", [(b"content-length", b"3")], b"abc"), R(b"GET", b"/m"), R(b"GET", b"/m", [(b"range", b"bytes=50-60")]),
+     R(b"GET", b"/m", [(b"range", b"bytes=50-60"), (b"x-custom", b"vv")]), R(b"HEAD", b"/m", [(b"range", b"bytes=11-")]),
+     R(b"GET", b"/p"), R(b"GET", b"/p", [(b"if-modified-since", b"@T+100"), (b"range", b"bytes=0-3")]),
+     R(b"GET", b"/p", [(b"if-modified-since", b"@T+100"), (b"range", b"bytes=900-")]), R(b"GET", b"/p", [(b"range", b"bytes=900-")])],
+    # a streamed body of UNKNOWN length (with_future, no content-length): HTTP/2 ends the stream, HTTP/1 ends the connection
+    # (7334433) - as the last request of a history: GET / HEAD / with an unread request body / ranged
+    [R(b"GET", b"/st1"), R(b"GET", b"/p"), R(b"GET", b"/st6")],
+    [R(b"GET", b"/p"), R(b"HEAD", b"/st2"), R(b"HEAD", b"/st6")],
+    [R(b"POST", b"/echo", [(b"content-length", b"4")], b"body"), R(b"POST", b"/st6", [(b"content-length", b"5000")], b"c" * 5000)],
+    [R(b"GET", b"/st6", [(b"range", b"bytes=2-5"), (b"accept-encoding", b"gzip")])],
 ]
 
 
@@ -752,7 +881,8 @@ def gen_pairs(rng, n_random, kind="pair", n_limited=2, big=(1,)):
         for cache in (True, False):
             plans.append((cache, PKG_MENUS[(i + cache) % len(PKG_MENUS)], h, (i + cache) % 3 != 0, kind + "-directed", {}, None))
     for _ in range(n_random):
-        plans.append((rng.random() < 0.7, rng.choice(PKG_MENUS), history(rng), rng.random() < 0.7, kind, {"hops": rand_hops(rng)}, None))
+        plans.append((rng.random() < 0.7, rng.choice(PKG_MENUS), maybe_closing(rng, history(rng)), rng.random() < 0.7, kind,
+                      {"hops": rand_hops(rng)}, None))
     # the host's request limiter: the first `limit` requests pass, the rest of the history (and the framing sentinel) is
     # answered 429 by handle_connection itself, on both protocols
     for j in range(n_limited):
@@ -832,7 +962,7 @@ def gen_servers(rng, n):
     """a sample of the histories through complete servers: RunConfig::execute on loopback ports (listener, accept loop, ALPN)"""
     plans = []
     for i in range(n):
-        h = DIRECTED_HISTORIES[i % len(DIRECTED_HISTORIES)] if i < 4 else history(rng)
+        h = DIRECTED_HISTORIES[i % len(DIRECTED_HISTORIES)] if i < 4 else maybe_closing(rng, history(rng), 0.5)
         plans.append((i % 2 == 0, PKG_MENUS[i % len(PKG_MENUS)], h, i % 3 != 1))
     jobs = [(host_cfg(c, pkg), h, 0) for c, pkg, h, _ in plans]
     prs = probe(jobs)
@@ -881,7 +1011,8 @@ def burst_plan(rng, n, p_cancel=0.12):
                 # the client resets this stream while (or before, or after) its handler sleeps: RST_STREAM(CANCEL)
                 hs.append((CANCEL, b"%d" % rng.choice([0, 1, 5, 30, 90, 150])))
         elif u < 0.8:
-            t = rng.choice([b"/p", b"/f.txt", b"/b.bin", b"/missing", b"/q?s=%d" % s, b"/n", b"/cl", b"/st1", b"/st3", b"/st4", b"/sf/t.txt", b"/hs0", b"/hs4"])
+            t = rng.choice([b"/p", b"/f.txt", b"/b.bin", b"/missing", b"/q?s=%d" % s, b"/n", b"/cl", b"/st1", b"/st3", b"/st4", b"/sf/t.txt", b"/hs0", b"/hs4",
+                            b"/st6", b"/nc"])
             m = rng.choice([b"GET", b"GET", b"HEAD"])
             if rng.random() < 0.5:
                 hs.append((b"accept-encoding", rng.choice([b"gzip", b"br"])))
@@ -920,7 +1051,7 @@ def burst_cases(cfg, pkg, cache, slow, reqs, pr, kind, with_h1, two=False):
         elif path == b"/q":
             cacheable, cls = cache, t
         else:
-            cacheable, cls = (cache and path not in (b"/n", b"/echo") and path not in ECHON and path not in STREAM_PATHS
+            cacheable, cls = (cache and path not in (b"/n", b"/echo", b"/nc") and path not in ECHON and path not in STREAM_PATHS
                               and not path.startswith(b"/sf/") and path not in (b"/hs0", b"/hs4")), path
         cacheable = cacheable and m in (b"GET", b"HEAD")
         cancel = d.get(CANCEL)
@@ -1045,7 +1176,7 @@ def compare(c, i, m):
 
 
 def wire(w):
-    """(L (N 0) (L (N 0) (L version status headers body))) -> dict | 'refused' | None"""
+    """(L (N 0) (L (N 0) (L version status headers body))) -> dict | 'refused' | None; (N 5): the HTTP/1 connection ended with it"""
     try:
         assert w[1][0] == ("N", 0)
         inner = w[1][1]
@@ -1053,8 +1184,10 @@ def wire(w):
             return "refused"
         if inner[1][0] == ("N", 4):
             return "broken"
+        assert inner[1][0] in (("N", 0), ("N", 5))
         v, st, hs, b = inner[1][1][1]
-        return {"version": v[1], "status": st[1], "headers": sorted((h[1][0][1], h[1][1][1]) for h in hs[1]), "body": b[1]}
+        return {"version": v[1], "status": st[1], "headers": sorted((h[1][0][1], h[1][1][1]) for h in hs[1]), "body": b[1],
+                "closed": inner[1][0] == ("N", 5)}
     except Exception:
         return None
 
@@ -1141,6 +1274,7 @@ def sbody_oracle(c, i):
     if not v[1]:
         return None if rg and rg[0][0] >= len(f) else "416 for a satisfiable Range %r on a %d-byte file" % (rg, len(f))
     written, ln = v[1][0][1][0][1], v[1][0][1][1][1]
+    status, cr = v[1][0][1][2][1], [x[1] for x in v[1][0][1][3][1]]
     a, e = rg[0] if rg else (0, len(f))
     if a >= len(f) and rg:
         return "a Range that starts at or after the end of the %d-byte file was answered with a stream" % len(f)
@@ -1148,6 +1282,11 @@ def sbody_oracle(c, i):
         return "stream_body announced %d bytes and wrote %d (file of %d bytes, Range %r)" % (ln, len(written), len(f), rg)
     if written != f[a:min(e, len(f))]:
         return "stream_body wrote other bytes than [%d, %d) of the file" % (a, min(e, len(f)))
+    # a Range is answered 206 with content-range: bytes first-last/length (RFC 9110 14.4, 15.3.7); no Range: 200 without
+    want = (206, [b"bytes %d-%d/%d" % (a, min(e, len(f)) - 1, len(f))]) if rg else (200, [])
+    if (status, cr) != want:
+        return "stream_body answered the Range %r of a %d-byte file with status %d, content-range %r (expected %d, %r)" % (
+            rg, len(f), status, cr, want[0], want[1])
     return None
 
 
@@ -1174,8 +1313,17 @@ def extra_oracle(c, i):
             if m == b"HEAD" and (w1["body"] or w2["body"]):
                 return "request %d: a HEAD answer has a body" % k
             cl = [v for n, v in w1["headers"] if n == b"content-length"]
-            if m != b"HEAD" and cl != [b"%d" % len(w1["body"])]:
+            # (a body that ends with the connection needs no length; the harness has seen the connection end)
+            delimited_by_close = w1["closed"] and not cl and (b"connection", b"close") in w1["headers"]
+            if m != b"HEAD" and cl != [b"%d" % len(w1["body"])] and not delimited_by_close:
                 return "request %d: HTTP/1.1 content-length %r for %d body bytes" % (k, cl, len(w1["body"]))
+            if w1["closed"] and k != len(iv[1]) - 1:
+                return "request %d: the HTTP/1.1 connection ended before the end of the history" % k
+            if w1["status"] in (204, 304) or 100 <= w1["status"] < 200:
+                if w1["body"] or w2["body"]:
+                    return "request %d: a %d answer has a body" % (k, w1["status"])
+            if any(n == b"transfer-encoding" for n, _ in w1["headers"]) and cl:
+                return "request %d: HTTP/1.1 answer with content-length and transfer-encoding" % k
             cl2 = [v for n, v in w2["headers"] if n == b"content-length"]
             if m != b"HEAD" and cl2 and cl2 != [b"%d" % len(w2["body"])]:
                 return "request %d: HTTP/2 content-length %r for %d body bytes" % (k, cl2, len(w2["body"]))
@@ -1237,5 +1385,7 @@ def extra_coverage(cases, impl, model, spec):
             "bursts_over_two_connections": len([c for c in cases if c.comp == "proto.burst2"]),
             "streamed_exchanges_through_both_protocols": sum(1 for c in pairs for e in c.x[1][5][1] if len(e[1]) > 6 and e[1][6][1][1][1]),
             "limiter_answered_exchanges": sum(1 for c in pairs for e in c.x[1][5][1] if len(e[1]) > 6 and e[1][6][1][0] == ("N", 1)),
+            "answers_that_end_the_http1_connection": sum((impl.get(c.id) or "").count("(L (N 5) (L (N 1") for c in cases),
+            "exchanges_on_paths_with_vary_rules": sum(1 for c in pairs for e in c.x[1][5][1] if len(e[1]) > 6 and len(e[1][6][1]) > 2 and e[1][6][1][2][1]),
             "request_body_reads_(proto.body)": len([c for c in cases if c.comp == "proto.body"]),
             "layer4_probes": _STATS["probes"], "layer4_probe_failures": _STATS["probe_failures"]}
